@@ -21,6 +21,8 @@ ASSUMPTIONS = ['provider agreement on the window boundary is value-level and not
 
 def run(ctx):
     P = ctx.P
+    from .repo_lookup import tiered_lookup
+    ctx.check('TIERED-LOOKUP', 'a retained epoch is found in whichever tier holds it (unwritten, cached, stored)', tiered_lookup('GroupStateRepository::get_epoch_mut'), floor=2, configs=['A', 'C', 'D'])
     cfg = ctx.config
     if cfg == 'P':
         S = 'SqLiteGroupStateStorage::update_group_state'
